@@ -245,11 +245,28 @@ def run_reply_survives(rep, facts):
     rep.floor("R11.7", "parser conversions checked", n, 2)
 
 
+
+def run_skip_arith(rep, facts, rid, why):
+    """R11.8: an abort record may carry any body and padding; whether and how far it is skipped is decided by into_skip / SkipState::drive, whose arithmetic must not wrap or panic for any lengths (R3.11 re-evaluated)."""
+    import check as _check
+    from . import c03
+    rep.rule(rid, why)
+    sr = _check.Report("tmp", "quick")
+    c03.run_arith(sr, facts)
+    n = 0
+    for i in sr.instances:
+        inst = i["instance"]
+        if i["rule"] == "R3.11" and (inst.startswith("into_skip") or inst.startswith("SkipState::drive")):
+            n += 1
+            (rep.ok if i["status"] == "ok" else rep.violation)(rid, inst, i["detail"], i["loc"])
+    rep.floor(rid, "skip arithmetic instances", n, 2)
+
 def main(rep, tier):
     f = F.load(("async", "http"))
     rep.configs.append({"features": "async,http", "profile": "debug", "bodies": len(f.bodies)})
     check.guard(rep, "R11", run, f)
     check.guard(rep, "R11.7", run_reply_survives, f)
+    check.guard(rep, "R11.8", lambda r_, f_: run_skip_arith(r_, f_, "R11.8", "the body and padding of an abort record (any lengths up to 65535 + 255) are skipped exactly: the skip decision and the skip arithmetic cannot overflow or truncate (R3.11 for into_skip and SkipState::drive)"), f)
     rep.floor("R11", "links", len([i for i in rep.instances if i["status"] == "ok"]), 12)
     return rep.finish(
         "The abort chain as table rows and ordering facts: parser dispatch rows for AbortRequest (both parsers, all three states), the "
